@@ -189,6 +189,9 @@ def run(rep, tier):
         'exact-mode area identities (arc/triangle branches) are not proved; checked numerically only',
     ]
     rep.lean = prove(PROP_MODULES)
+    # what an aperture reports does not depend on which other aperture classes were touched before in the process (seeds C09-r8, C01-r12)
+    from props import c09 as _c09
+    _c09.cross_object_history(rep, rng('C01-cross'), tier == 'thorough')
     broken = not rep.lean.ok
     if broken:
         scale *= 3
